@@ -41,3 +41,45 @@ V('C12', 'neg-rename', C, Q,
   '''        out_type_id = sertypes.NULL_TYPE_ID
         out_type_data = sertypes.NULL_TYPE_DESC''', '''        out_type_data = sertypes.NULL_TYPE_DESC
         out_type_id = sertypes.NULL_TYPE_ID''', None)
+
+P = 'edb/edgeql/compiler/polyres.py'
+V('C12', 'type-dist-carried-over', P, 'edb.edgeql.compiler.polyres.find_callable',
+  '''        for call in matched:
+            call_type_dist = 0
+
+''', '''        call_type_dist = 0
+        for call in matched:
+''', 'C12.R3', 'find_callable:call_type_dist')
+V('C12', 'total-cd-hoisted', P, 'edb.edgeql.compiler.polyres.find_callable',
+  '''        total_cd = sum(barg.cast_distance for barg in call.args)
+
+        if implicit_cast_distance is None:''', '''        if implicit_cast_distance is None:
+            total_cd = sum(barg.cast_distance for barg in call.args)''', 'C12.R3', 'find_callable:total_cd')
+V('C12', 'named-tuple-left-types', 'edb/schema/types.py', 'edb.schema.types.Tuple.find_common_implicitly_castable_type',
+  'schema, dict(zip(my_names, new_types)), {"named": True}', 'schema, dict(zip(my_names, subs)), {"named": True}', 'C12.R4', 'find_common_implicitly_castable_type')
+V('C12', 'nonpoly-tuple-keeps-poly', 'edb/schema/types.py', 'edb.schema.types.Tuple._to_nonpolymorphic',
+  'return type(self).from_subtypes(schema, new_types)', 'return type(self).from_subtypes(schema, list(self.get_subtypes(schema)))', 'C12.R4', '_to_nonpolymorphic')
+V('C12', 'union-least-generic', 'edb/schema/utils.py', 'edb.schema.utils.simplify_union_types_preserve_derived',
+  'nonderived = minimize_class_set_by_most_generic(', 'nonderived = minimize_class_set_by_least_generic(', 'C12.R5', 'simplify_union_types_preserve_derived')
+V('C12', 'intersection-most-generic', 'edb/schema/utils.py', 'edb.schema.utils.simplify_intersection_types',
+  'return minimize_class_set_by_least_generic(', 'return minimize_class_set_by_most_generic(', 'C12.R5', 'simplify_intersection_types')
+V('C12', 'most-generic-filter-flipped', 'edb/schema/utils.py', 'edb.schema.utils.minimize_class_set_by_most_generic',
+  '((mros[i], classes[j])', '((mros[j], classes[i])', 'C12.R5', 'minimize_class_set_by_most_generic:filter')
+# negative control: initialise through a helper expression, rename the score
+V('C12', 'neg-score-renamed', P, 'edb.edgeql.compiler.polyres.find_callable',
+  '''            call_type_dist = 0
+
+            for barg in call.args:
+                if barg.param is None:
+                    # Skip injected bitmask argument.
+                    continue
+
+                paramtype = barg.param.get_type(ctx.env.schema)
+                arg_type_dist = barg.valtype.get_common_parent_type_distance(
+                    paramtype, ctx.env.schema)
+                call_type_dist += arg_type_dist
+''', '''            call_type_dist = sum(
+                barg.valtype.get_common_parent_type_distance(
+                    barg.param.get_type(ctx.env.schema), ctx.env.schema)
+                for barg in call.args if barg.param is not None)
+''', None)
